@@ -66,6 +66,8 @@ def c_action(a):
         return '(ACallSoon %s)' % c_nat(a[1])
     if k == 'observe':
         return 'AObserve'
+    if k == 'status':
+        return '(AStatus %s)' % c_opt(a[1], c_str)
     raise ValueError(a)
 
 
@@ -187,7 +189,7 @@ def to_coq(case, obs):
             LABELS[f['state']], c_pfut(f['future']), c_bool(f['paused']), c_opt(f['status'], c_str),
             {'pending': 'T0Pending', 'done': 'T0Done', 'failed': 'T0Failed'}[f['t0']],
             c_list([c_afut(a) for a in f['actions']]), c_bool(f['killing']), c_bool(f['closed']), c_nat(f['ready']))
-    return '(mk_life %s %s %s %s)' % (c_config(case), c_list([c_env(e) for e in case['events']]),
+    return '(mk_life %s %s %s %s)' % (c_config(case), c_list([c_env(e) for e in obs.get('realized', case['events'])]),
                                       c_list([c_event(e) for e in obs['trace']]), final)
 
 
@@ -237,8 +239,42 @@ def run_case(case, klass=None, sample=None):
         def take_sample(tag):
             samples.append(observe(proc, t0, sc, actions, tag, len(trace)))
         take_sample('start')
-        for ev in case['events']:
+        realized = []
+        queue = list(case['events'])
+        resume_values = list(case.get('auto_resumes', []))
+        while queue:
+            ev = queue.pop(0)
             k = ev[0]
+            if k == 'auto':
+                # deterministic driver (DESIGN C05): play if paused, drain, resume a quiescent wait with the next value
+                for _ in range(ev[1]):
+                    if proc.paused:
+                        queue.insert(0, ['ctl', ['play']])
+                        break
+                    if sc.ready():
+                        queue.insert(0, ['drain', 30])
+                        break
+                    if proc.state.value == 'waiting' and resume_values:
+                        queue.insert(0, ['ctl', resume_values.pop(0)])
+                        break
+                else:
+                    continue
+                if ev[1] > 1:
+                    queue.insert(1, ['auto', ev[1] - 1])
+                continue
+            if k == 'resume*':
+                if not sc.ready() and not proc.paused and proc.state.value == 'waiting' and resume_values:
+                    queue.insert(0, ['ctl', resume_values.pop(0)])
+                continue
+            if k == 'tick*':
+                # a tick of the driven run: a quiescent, playing, waiting process is first resumed with the next value
+                if not sc.ready() and not proc.paused and proc.state.value == 'waiting' and resume_values:
+                    queue.insert(0, ['tick'])
+                    queue.insert(0, ['ctl', resume_values.pop(0)])
+                    continue
+                ev = ['tick']
+                k = 'tick'
+            realized.append(ev)
             if k == 'tick':
                 sc.tick()
             elif k == 'ctl':
@@ -266,7 +302,7 @@ def run_case(case, klass=None, sample=None):
         for f in proc._sc_ext.values():
             if f.done() and not f.cancelled():
                 f.exception()
-        return {'trace': trace, 'final': final, 'samples': samples, 'proc': proc if sample == 'keep' else None}
+        return {'trace': trace, 'final': final, 'samples': samples, 'proc': proc if sample == 'keep' else None, 'realized': realized}
     finally:
         pf.CancellableAction.__init__ = orig_init
         sc.close()
@@ -336,7 +372,7 @@ def base_programs():
 CTLS = [['pause', 'p'], ['pause', None], ['play'], ['kill', 'k'], ['kill', None], ['resume'], ['resume', 42], ['fail', 'f']]
 
 
-def place(base_ticks, events_at):
+def place(base_ticks, events_at, tick=('tick',)):
     """events_at: list of (boundary index, event); boundary i = after i ticks.  Returns the schedule with a final drain."""
     out = []
     by = {}
@@ -346,12 +382,26 @@ def place(base_ticks, events_at):
         for e in by.get(i, []):
             out.append(e)
         if i < base_ticks:
-            out.append(['tick'])
+            out.append(list(tick))
     return out
 
 
-def count_ticks(case_prog, extra=None, limit=40):
-    """Number of callbacks the event-free run takes (measured on the implementation)."""
+def count_ticks(case_prog, extra=None, limit=40, driven=False):
+    """Number of callbacks the event-free run takes (measured on the implementation); driven: with the waits resumed by the driver."""
+    if driven:
+        obs = run_case(dict(extra or {}, prog=case_prog, events=[['tick*']] * limit))
+        last = 0
+        for i, e in enumerate(x for x in obs['realized'] if x[0] == 'tick'):
+            pass
+        # ticks that actually ran a callback: count samples whose ready count or trace position changed
+        n, prev = 0, None
+        ticks = [s for s, e in zip(obs['samples'][1:], obs['realized']) if e[0] == 'tick']
+        for j, s in enumerate(ticks):
+            key = (s['pos'], s['ready'], s['state'], s['t0'])
+            if key != prev:
+                n = j + 1
+            prev = key
+        return n
     case = dict(extra or {}, prog=case_prog, events=[['drain', limit]])
     obs = run_case(case)
     return sum(1 for s in obs['samples'] if s['tag'] == 'drain-tick')
@@ -375,3 +425,16 @@ def distribution(cases, obs):
 
 def strip_obs(o):
     return {k: v for k, v in o.items() if k != 'proc'}
+
+
+def place_on(skeleton, events_at):
+    """events_at: list of (position in the skeleton, event): the event is performed before skeleton[position]."""
+    by = {}
+    for i, e in events_at:
+        by.setdefault(i, []).append(e)
+    out = []
+    for i in range(len(skeleton) + 1):
+        out += by.get(i, [])
+        if i < len(skeleton):
+            out.append(list(skeleton[i]))
+    return out
